@@ -1,12 +1,11 @@
-(* Component `lowerbool` (C01 item 2 `branch_lowering_correct`, C09 item 6): property theorems only
-   (`Theorem ... exact ...` + `Print Assumptions`).
+(* Component `lowerbool` (C01 items 2-3 `branch_lowering_correct`, `arith_lowering_correct`; C09 item 6):
+   property theorems only (`Theorem ... exact ...` + `Print Assumptions`).
 
-   Model:  Codegen/LowerBoolModel.v  `lower_branch` = hidc's `bool_expr_branch` on F_model
-           (comparisons of int literals / int locals / + - * arithmetic over them, bool literals,
-           bool locals, not, and, or), tied TEXTUALLY to the compiler by tools/corr_lowerbool.py
-           (labels included).
-   F_proved (what `vars_ok` accepts): all of F_model except arithmetic operands, i.e. comparisons
-           of SAFE operands (literals, locals) -- the fragment DESIGN C01 item 2 names.
+   Model:  Codegen/LowerBoolModel.v  `lower_branch` = hidc's `bool_expr_branch`, `eval_opd` = eval_expr on
+           int operands, on F_model: comparisons of int operands (literals, int locals, + - * and unary
+           - + nested arbitrarily), bool literals, bool locals, not, and, or; tied TEXTUALLY to the
+           compiler by tools/corr_lowerbool.py (labels included).
+   F_proved = F_model (`/` and `%` are outside both).
    Proofs: Codegen/LowerBoolProofs.v.  All statements: every expression tree (unbounded depth),
            every word size w >= 2, arbitrary surrounding code (`code` is constrained only where the
            resolved block sits), arbitrary base address B, every well-formed frame.
@@ -14,11 +13,18 @@
    Reading the statements:
      runs s [] s'        Halts s <-> Halts s', and if s' does not halt the committed timeline goes
                          from s to s' silently (Halts.v)
-     beval               source semantics: signed comparison of the locals' / literals' values, a
-                         bool local is true iff its byte is non-zero, not / and / or
-     run_mem             the memory after the evaluation = the loads of exactly the atoms reached by
-                         left-to-right short-circuit evaluation (`trace`), in that order
-     agree m m'          m' differs from m at most in the words r0 and r1 (frame condition)
+     sval / beval        source semantics: an int local read as a signed word, + - * unary - wrap to
+                         the word size, signed comparison, a bool local is true iff its byte is
+                         non-zero, not / and / or
+     wval                the value as a word, = wrap (sval)
+     eval_mem / run_mem  the memory after the evaluation, as a function: the operand evaluations of
+                         exactly the atoms reached by left-to-right short-circuit evaluation (`trace`)
+     regs_ok, room_ok    the frame: registers in bounds, disjoint, below the stack area; the area
+                         [lo, fp - top) below the stack top is in bounds and addressable (STACK ROOM)
+     oexp_ok / vars_ok   every local in bounds, above the stack top, not a register; every literal a
+                         word; temps * w bytes of room below the stack top for the temporaries
+     agree lo hi m m'    m' differs from m at most in the words r0, r1 and in [lo, hi): every local and
+                         every slot at or above the stack top is preserved (frame condition)
    Satisfiability `Example`s for the hypotheses are restated at the end. *)
 From Coq Require Import ZArith List Bool Lia.
 From HidV Require Import Machine Halts WordLemmas MemLemmas GenTables OpTables Idioms LowerBoolModel LowerBoolProofs.
@@ -32,6 +38,8 @@ Variable code : Z -> option instr.
 Variable cmem : mem.
 Variable R : regmap.
 Variable E : env.
+Hypothesis HwE : wsize E = w.
+Variable lo : Z.
 Variable ext : label -> Z.
 Hypothesis ext_range : forall x, 0 <= ext x < Machine.W w.
 Notation act := (Machine.act w code cmem).
@@ -39,28 +47,61 @@ Notation Halts := (HidV.Sphinx.Halts.Halts act).
 Notation runs := (HidV.Sphinx.Halts.runs act).
 Notation csteps := (HidV.Sphinx.Halts.csteps act).
 
+(* C01 item 3: arithmetic operands *)
+Theorem C01_arith_lowering_correct o top rg keep B m :
+  let C := fst (eval_opd E top rg o keep) in
+  let bub := snd (eval_opd E top rg o keep) in
+  code_at code B (resolve R ext B C) ->
+  0 <= B -> B + size C < Machine.W w ->
+  rg = R0 \/ rg = R1 ->
+  regs_ok w R lo m -> room_ok w R lo top m -> oexp_ok w R E lo (FP w R m - top) m o ->
+  Z.of_nat (temps o keep) * w <= FP w R m - top - lo ->
+  let m' := eval_mem w R E top rg o keep m in
+  runs (mk B m) [] (mk (B + size C) m') /\
+  agree w R lo (FP w R m - top) m m' /\
+  bub = bub_of E top rg o keep /\
+  bub_val w R m' bub = wval w R E m o /\
+  wval w R E m o = Machine.wrap w (sval w R E m o) /\
+  Machine.sgn w (wval w R E m o) = sval w R E m o.
+Proof. exact (@arith_lowering_correct w Hw code cmem R E HwE lo ext ext_range o top rg keep B m). Qed.
+
+Theorem C01_get_expr_value_correct o top rg B m :
+  let ev := eval_opd E top rg o false in
+  let C := fst ev ++ fst (pop_value rg (snd ev)) in
+  let v := snd (pop_value rg (snd ev)) in
+  code_at code B (resolve R ext B C) ->
+  0 <= B -> B + size C < Machine.W w ->
+  rg = R0 \/ rg = R1 ->
+  regs_ok w R lo m -> room_ok w R lo top m -> oexp_ok w R E lo (FP w R m - top) m o ->
+  Z.of_nat (temps o false) * w <= FP w R m - top - lo ->
+  let m' := pop_mem w R rg (bub_of E top rg o false) (eval_mem w R E top rg o false m) in
+  runs (mk B m) [] (mk (B + size C) m') /\
+  agree w R lo (FP w R m - top) m m' /\
+  Idioms.oval w cmem m' (res_sym R ext v) = Some (wval w R E m o).
+Proof. exact (@get_expr_value_correct w Hw code cmem R E HwE lo ext ext_range o top rg B m). Qed.
+
 (* the flagship: both continuations are gotos *)
 Theorem C01_branch_lowering_correct e T F st B m :
   let C := fst (lower_branch E e (goto T) (goto F) st) in
   code_at code B (resolve R ext B C) ->
   0 <= B -> B + size C < Machine.W w ->
   below st T -> below st F ->
-  layout_ok w R m -> vars_ok w R E m e ->
+  layout_ok w R E lo m -> vars_ok w R E lo m e ->
   let m' := run_mem w R E e m in
   runs (mk B m) [] (mk (if beval w R E m e then ext T else ext F) m') /\
-  agree w R m m' /\
+  agree w R lo (HI w R E m) m m' /\
   m' = fold_left (atom_mem w R E) (trace w R E m e) m.
-Proof. exact (@branch_lowering_correct w Hw code cmem R E ext ext_range e T F st B m). Qed.
+Proof. exact (@branch_lowering_correct w Hw code cmem R E HwE lo ext ext_range e T F st B m). Qed.
 
 Theorem C01_branch_lowering_halts e T F st B m :
   let C := fst (lower_branch E e (goto T) (goto F) st) in
   code_at code B (resolve R ext B C) ->
   0 <= B -> B + size C < Machine.W w ->
   below st T -> below st F ->
-  layout_ok w R m -> vars_ok w R E m e ->
+  layout_ok w R E lo m -> vars_ok w R E lo m e ->
   let s' := mk (if beval w R E m e then ext T else ext F) (run_mem w R E e m) in
   (Halts (mk B m) <-> Halts s') /\ (~ Halts s' -> csteps (mk B m) [] s').
-Proof. exact (@branch_lowering_halts w Hw code cmem R E ext ext_range e T F st B m). Qed.
+Proof. exact (@branch_lowering_halts w Hw code cmem R E HwE lo ext ext_range e T F st B m). Qed.
 
 (* IfBlock / LoopBlock form: if_true empty (fall through), if_false = goto else *)
 Theorem C01_fallthrough_lowering_correct e Else st B m :
@@ -68,24 +109,24 @@ Theorem C01_fallthrough_lowering_correct e Else st B m :
   code_at code B (resolve R ext B C) ->
   0 <= B -> B + size C < Machine.W w ->
   below st Else ->
-  layout_ok w R m -> vars_ok w R E m e ->
+  layout_ok w R E lo m -> vars_ok w R E lo m e ->
   let m' := run_mem w R E e m in
   runs (mk B m) [] (mk (if beval w R E m e then B + size C else ext Else) m') /\
-  agree w R m m' /\
+  agree w R lo (HI w R E m) m m' /\
   m' = fold_left (atom_mem w R E) (trace w R E m e) m.
-Proof. exact (@fallthrough_lowering_correct w Hw code cmem R E ext ext_range e Else st B m). Qed.
+Proof. exact (@fallthrough_lowering_correct w Hw code cmem R E HwE lo ext ext_range e Else st B m). Qed.
 
 Theorem C01_if_block_lowering_correct e st B m :
   let C := fst (fst (fst (if_block E e st))) in
   let else_label := snd (fst (fst (if_block E e st))) in
   code_at code B (resolve R ext B C) ->
   0 <= B -> B + size C < Machine.W w ->
-  layout_ok w R m -> vars_ok w R E m e ->
+  layout_ok w R E lo m -> vars_ok w R E lo m e ->
   let m' := run_mem w R E e m in
   runs (mk B m) [] (mk (if beval w R E m e then B + size C else ext else_label) m') /\
-  agree w R m m' /\
+  agree w R lo (HI w R E m) m m' /\
   m' = fold_left (atom_mem w R E) (trace w R E m e) m.
-Proof. exact (@if_block_lowering_correct w Hw code cmem R E ext ext_range e st B m). Qed.
+Proof. exact (@if_block_lowering_correct w Hw code cmem R E HwE lo ext ext_range e st B m). Qed.
 
 (* general continuations: straight-line prefix, optional goto *)
 Theorem C01_lowering_correct_gen e pt gt pf gf st B m :
@@ -95,38 +136,40 @@ Theorem C01_lowering_correct_gen e pt gt pf gf st B m :
   0 <= B -> B + size C < Machine.W w ->
   forallb simple pt = true -> forallb simple pf = true ->
   (forall L, gt = Some L -> below st L) -> (forall L, gf = Some L -> below st L) ->
-  layout_ok w R m -> vars_ok w R E m e ->
+  layout_ok w R E lo m -> vars_ok w R E lo m e ->
   let b := beval w R E m e in
   let m' := run_mem w R E e m in
-  agree w R m m' /\
+  agree w R lo (HI w R E m) m m' /\
   m' = fold_left (atom_mem w R E) (trace w R E m e) m /\
   forall m'', run_simple w R cmem lab (if b then pt else pf) m' = Some m'' ->
     runs (mk B m) [] (mk (match (if b then gt else gf) with Some L => ext L | None => B + size C end) m'').
-Proof. exact (@lowering_correct_gen w Hw code cmem R E ext ext_range e pt gt pf gf st B m). Qed.
+Proof. exact (@lowering_correct_gen w Hw code cmem R E HwE lo ext ext_range e pt gt pf gf st B m). Qed.
 
 (* C09 item 6: value position *)
 Theorem C09_value_lowering_correct e rout st B m :
   let C := fst (value_lowering E e rout st) in
   code_at code B (resolve R ext B C) ->
   0 <= B -> B + size C < Machine.W w ->
-  layout_ok w R m -> vars_ok w R E m e ->
-  0 <= regaddr R rout -> inb m (regaddr R rout) w = true ->
+  layout_ok w R E lo m -> vars_ok w R E lo m e ->
+  rout = R0 \/ rout = R1 ->
   let v := if beval w R E m e then 1 else 0 in
   let m'' := Machine.sw w (run_mem w R E e m) (regaddr R rout) v in
-  runs (mk B m) [] (mk (B + size C) m'') /\ Machine.lw w m'' (regaddr R rout) = v.
-Proof. exact (@value_lowering_correct w Hw code cmem R E ext ext_range e rout st B m). Qed.
+  runs (mk B m) [] (mk (B + size C) m'') /\ Machine.lw w m'' (regaddr R rout) = v /\
+  agree w R lo (HI w R E m) m m''.
+Proof. exact (@value_lowering_correct w Hw code cmem R E HwE lo ext ext_range e rout st B m). Qed.
 
 Theorem C09_value_lowering_keep_correct e st B m :
   let off := stack_top E + 1 in
+  let E' := with_top E off in
   let C := fst (value_lowering_keep E e st) in
   code_at code B (resolve R ext B C) ->
   0 <= B -> B + size C < Machine.W w ->
-  layout_ok w R m -> vars_ok w R E m e ->
-  slot_ok w R m off 1 ->
-  let v := if beval w R E m e then 1 else 0 in
-  let m'' := Machine.sb (run_mem w R E e m) (FP w R m - off) v in
+  layout_ok w R E' lo m -> vars_ok w R E' lo m e ->
+  slot_ok w R lo (HI w R E' m) m off 1 ->
+  let v := if beval w R E' m e then 1 else 0 in
+  let m'' := Machine.sb (run_mem w R E' e m) (FP w R m - off) v in
   runs (mk B m) [] (mk (B + size C) m'') /\ lb m'' (FP w R m - off) = v.
-Proof. exact (@value_lowering_keep_correct w Hw code cmem R E ext ext_range e st B m). Qed.
+Proof. exact (@value_lowering_keep_correct w Hw code cmem R E HwE lo ext ext_range e st B m). Qed.
 End P.
 
 (* the numbering discipline: every label the block defines is fresh (allocated by this call) and
@@ -137,6 +180,14 @@ Theorem C01_lower_branch_labels_fresh E e kt kf st C st' :
   st_le st st' /\ Forall (between st st') (deflabels C) /\ NoDup (deflabels C).
 Proof. exact (@lower_branch_defs E e kt kf st C st'). Qed.
 
+(* temps_needed is what the model uses: every push of the emitted operand code goes to a frame
+   offset in (top, top + temps * w], and the bound is attained *)
+Theorem C01_temps_needed_exact E o : 0 < wsize E -> forall top r keep,
+  let offs := store_offs (fst (eval_opd E top r o keep)) in
+  let T := top + Z.of_nat (temps o keep) * wsize E in
+  Forall (fun off => top < off <= T) offs /\ (temps o keep <> 0%nat -> In T offs).
+Proof. exact (@eval_opd_stores E o). Qed.
+
 (* short-circuit: a deciding left operand leaves no trace of the right one *)
 Theorem C01_short_circuit_and w R E m e1 e2 : beval w R E m e1 = false ->
   trace w R E m (BAnd e1 e2) = trace w R E m e1 /\ run_mem w R E (BAnd e1 e2) m = run_mem w R E e1 m.
@@ -146,21 +197,29 @@ Theorem C01_short_circuit_or w R E m e1 e2 : beval w R E m e1 = true ->
 Proof. exact (@short_circuit_or w R E m e1 e2). Qed.
 
 (* satisfiability of the hypotheses (w = 2, hidc's register layout) *)
+Example C01_arith_lowering_sat :
+  let m' := eval_mem 2 ex_regs ex_env 10 R0 ex_o false ex_mem in
+  HidV.Sphinx.Halts.runs (Machine.act 2 (code_of ex_oprog) (zmem 0)) (mk 0 ex_mem) []
+    (mk (size (fst (eval_opd ex_env 10 R0 ex_o false))) m') /\
+  Machine.lw 2 m' (a_r0 ex_regs) = 30.
+Proof. exact arith_lowering_ex. Qed.
 Example C01_branch_lowering_sat :
-  let m' := run_mem 2 (hidc_regs 2) ex_env ex_e ex_mem in
+  let m' := run_mem 2 ex_regs ex_env ex_e ex_mem in
   HidV.Sphinx.Halts.runs (Machine.act 2 (code_of ex_prog) (zmem 0)) (mk 0 ex_mem) [] (mk 100 m') /\
-  agree 2 (hidc_regs 2) ex_mem m'.
+  agree 2 ex_regs ex_lo 50 ex_mem m'.
 Proof. exact branch_lowering_ex. Qed.
 Example C01_if_block_lowering_sat :
   HidV.Sphinx.Halts.runs (Machine.act 2 (code_of ex_if_prog) (zmem 0)) (mk 0 ex_mem) []
-    (mk (size (fst (fst (fst (if_block ex_env ex_e ex_st))))) (run_mem 2 (hidc_regs 2) ex_env ex_e ex_mem)).
+    (mk (size (fst (fst (fst (if_block ex_env ex_e ex_st))))) (run_mem 2 ex_regs ex_env ex_e ex_mem)).
 Proof. exact if_block_lowering_ex. Qed.
 Example C09_value_lowering_sat :
   exists m'', HidV.Sphinx.Halts.runs (Machine.act 2 (code_of ex_val_prog) (zmem 0)) (mk 0 ex_mem) []
                 (mk (size (fst (value_lowering ex_env ex_e R0 ex_st))) m'') /\
-              Machine.lw 2 m'' (a_r0 (hidc_regs 2)) = 1.
+              Machine.lw 2 m'' (a_r0 ex_regs) = 1.
 Proof. exact value_lowering_ex. Qed.
 
+Print Assumptions C01_arith_lowering_correct.
+Print Assumptions C01_get_expr_value_correct.
 Print Assumptions C01_branch_lowering_correct.
 Print Assumptions C01_branch_lowering_halts.
 Print Assumptions C01_fallthrough_lowering_correct.
@@ -169,8 +228,10 @@ Print Assumptions C01_lowering_correct_gen.
 Print Assumptions C09_value_lowering_correct.
 Print Assumptions C09_value_lowering_keep_correct.
 Print Assumptions C01_lower_branch_labels_fresh.
+Print Assumptions C01_temps_needed_exact.
 Print Assumptions C01_short_circuit_and.
 Print Assumptions C01_short_circuit_or.
+Print Assumptions C01_arith_lowering_sat.
 Print Assumptions C01_branch_lowering_sat.
 Print Assumptions C01_if_block_lowering_sat.
 Print Assumptions C09_value_lowering_sat.
